@@ -70,12 +70,13 @@ def _run(cmd, cwd=None, input=None, timeout=1800):
 
 
 class _Lock:
-    def __init__(self, path):
+    def __init__(self, path, shared=False):
         self.path = path
+        self.shared = shared
 
     def __enter__(self):
-        self.f = open(self.path, "w")
-        fcntl.flock(self.f, fcntl.LOCK_EX)
+        self.f = open(self.path, "a")
+        fcntl.flock(self.f, fcntl.LOCK_SH if self.shared else fcntl.LOCK_EX)
         return self
 
     def __exit__(self, *a):
@@ -279,7 +280,9 @@ def run_model(prop_id: str, lines: list[str], timeout=1200) -> list[str]:
         raise Infra(f"no driver {drv}")
     data = "\n".join(lines) + "\n"
     try:
-        rc, out, err = _run(["lake", "env", "lean", "--run", drv], cwd=LEAN, input=data, timeout=timeout)
+        # shared lock: drivers may run side by side, but not while a build rewrites the .olean files they load
+        with _Lock(LEAN / ".build.lock", shared=True):
+            rc, out, err = _run(["lake", "env", "lean", "--run", drv], cwd=LEAN, input=data, timeout=timeout)
     except subprocess.TimeoutExpired:
         raise Infra("model driver timed out")
     outs = out.split("\n")
